@@ -9,6 +9,7 @@ use std::process::exit;
 mod util;
 mod board;
 mod keys;
+mod table;
 
 fn main() {
     let args: Vec<String> = env::args().collect();
@@ -20,6 +21,7 @@ fn main() {
     let code = match args[1].as_str() {
         "board" => board::run(rest),
         "keys" => keys::run(rest),
+        "table" => table::run(rest),
         other => {
             eprintln!("unknown family {}", other);
             2
